@@ -44,6 +44,7 @@ DOC_KEY_MAP = {
     "rec": {"data_id": "i", "str": "s"}, "dw": {"data_id": "i", "str": "s"},
     "typed": {"data_id": "i", "str": "s", "kind": "k"}, "typedcb": {"data_id": "i", "str": "s", "kind": "k"},
     "rectyped": {"data_id": "i", "str": "s", "kind": "k"},
+    "recpop": {"data_id": "i", "str": "s"}, "recpoptyped": {"data_id": "i", "str": "s", "kind": "k"},
     "derived": {"data_id": "i", "str": "s", "type": "t", "name": "n", "size": "z"},  # c05.RecTree.DEFAULT_KEY_MAP
     "derivedtyped": {"data_id": "i", "str": "s", "kind": "k", "type": "t", "name": "n"},  # c05.EntTypedTree.DEFAULT_KEY_MAP
     "fs": {},
